@@ -20,13 +20,19 @@ def sh(cmd, cwd=None):
 
 
 ids = sys.argv[1:] or sorted(os.listdir(os.path.join(VERIF, "seeded")))
+# the checks are run from a snapshot of the committed /verif tree, so that work going on in /verif cannot disturb them
+SNAP = "/tmp/reeval_verif"
+shutil.rmtree(SNAP, ignore_errors=True)
+os.makedirs(SNAP)
+rc, o = sh("git -C %s archive HEAD | tar -x -C %s" % (VERIF, SNAP))
+assert rc == 0, o
 sh("git -C /repo worktree remove --force %s" % WT)
 rc, o = sh("git -C /repo worktree add -q --detach %s HEAD" % WT)
 assert rc == 0, o
 for d in SCR.values():
     os.makedirs(d, exist_ok=True)
 env = dict(os.environ, VERIF_REPO=WT, **SCR)
-man = json.load(open(os.path.join(VERIF, "MANIFEST.json")))
+man = json.load(open(os.path.join(SNAP, "MANIFEST.json")))
 head = sh("git -C %s rev-parse --short HEAD" % VERIF)[1].strip()
 try:
     for sid in ids:
@@ -44,7 +50,7 @@ try:
             for c in man["checks"]:
                 pid = c["property_id"]
                 t0 = time.time()
-                r = subprocess.run(c["quick_cmd"], shell=True, cwd=VERIF, capture_output=True, text=True, timeout=3600, env=env)
+                r = subprocess.run(c["quick_cmd"], shell=True, cwd=SNAP, capture_output=True, text=True, timeout=3600, env=env)
                 lines = [l for l in r.stdout.splitlines() if l.startswith(("VIOLATION", "failed obligation", "UNDECIDED"))]
                 det[pid] = {"exit": r.returncode, "lines": [l[:400] for l in lines[:6]], "wall_s": round(time.time() - t0, 1)}
         finally:
@@ -60,5 +66,5 @@ try:
         sys.stdout.flush()
 finally:
     sh("git -C /repo worktree remove --force %s" % WT)
-    for d in SCR.values():
+    for d in list(SCR.values()) + [SNAP]:
         shutil.rmtree(d, ignore_errors=True)
